@@ -110,6 +110,12 @@ fn branchy(lk: &str, rk: &str) -> Branchy {
 /// The differential check for one (program, witness map, environment).
 #[allow(clippy::too_many_arguments)]
 fn compare(rep: &Report, built: &drive::Built, text: &str, map: &[(String, Val, Ty)], e: (u32, u32), label: &str, anchored: bool) {
+    compare_after(rep, built, text, map, e, label, anchored, &[])
+}
+
+/// `compare` on an instance that has already answered `satisfy_with_env` for the same map under `earlier` environments.
+#[allow(clippy::too_many_arguments)]
+fn compare_after(rep: &Report, built: &drive::Built, text: &str, map: &[(String, Val, Ty)], e: (u32, u32), label: &str, anchored: bool, earlier: &[(u32, u32)]) {
     let env = drive::env_with(e.0, e.1);
     rep.transition(1);
     rep.eval(2);
@@ -160,7 +166,7 @@ fn compare(rep: &Report, built: &drive::Built, text: &str, map: &[(String, Val, 
         }
     }
     rep.class(&format!("unpruned={} pruned={}", unpruned.class(), pruned.class()));
-    let replay = |expect: &str, observed: &str| json!({"kind": "run_pruned", "program": text, "args": [], "witness": map_json(map), "debug": false, "env": env_json(e), "expect": expect, "observed": observed});
+    let replay = |expect: &str, observed: &str| json!({"kind": "run_pruned", "program": text, "args": [], "witness": map_json(map), "debug": false, "env": env_json(e), "earlier_envs_on_this_instance": earlier.iter().map(|x| env_json(*x)).collect::<Vec<_>>(), "expect": expect, "observed": observed});
     let constrained = if anchored { "anchored" } else { "unanchored" };
     match (&unpruned, &pruned) {
         (RunOutcome::Success, RunOutcome::Success) => {}
@@ -334,7 +340,7 @@ pub fn run(rep: &Report) -> i32 {
                     match drive::build(&text, simfony::Arguments::default(), false) {
                         Ok(built) => {
                             for (k, e) in order.iter().enumerate() {
-                                compare(rep, &built, &text, m, *e, &format!("env-branch {label} order {oi} step {k}"), true);
+                                compare_after(rep, &built, &text, m, *e, &format!("env-branch {label} order {oi} step {k}"), true, &order[..k]);
                                 rep.nontrivial(1);
                             }
                         }
